@@ -8,6 +8,7 @@
 
 mod expr;
 mod extract;
+mod gen_codes;
 mod gen_kernels;
 
 use std::path::{Path, PathBuf};
@@ -47,6 +48,7 @@ fn main() {
     let mut src = extract::Sources::new(root);
 
     gen_kernels::generate(&mut src, &mut out);
+    gen_codes::generate(&mut src, &mut out);
 
     for w in &out.written {
         println!("rs2lean: {}", w);
